@@ -155,6 +155,10 @@ def run(facts, chk, tier, only=None):
         else:
             chk.ok('C13.nofilter', 'C13.nofilter:weed:names', MSA + '::weed', 'weed never assigns self.names')
 
+    from . import c01
+    # the weed set is enumerated by the shared SplitKmer iterator (last window of each weed sequence)
+    chk.guard('C13.window', 'C13.window:run', lambda: c01.check_guards(facts, chk, 'C13.window'))
+
     # rows
     def rows():
         from . import c06
